@@ -334,14 +334,24 @@ class MeasuredParameter(sympy.Symbol):
     """
 
     def __new__(cls, regref):
-        # sympy.Basic.__new__ wants a name, other arguments must not end up in self._args
-        return super().__new__(cls, "q" + str(regref.ind))
+        # sympy.Basic.__new__ wants a name, other arguments must not end up in self._args.
+        # sympy.Symbol.__new__ caches instances by name: every program in the process using the
+        # same subsystem index would share one parameter object, and __init__ would re-point it
+        # to the RegRef of whichever program asked last. Use the uncached constructor and make
+        # the RegRef part of the symbol's identity (see _hashable_content).
+        obj = sympy.Symbol.__xnew__(cls, "q" + str(regref.ind))
+        obj.regref = regref
+        return obj
 
     def __init__(self, regref):
         if not regref.active:
             raise ValueError("Trying to use an inactive RegRef.")
         #: RegRef: the value of the parameter depends on this RegRef, and can only be evaluated after the corresponding subsystem has been measured
         self.regref = regref
+
+    def _hashable_content(self):
+        # parameters referring to different RegRef objects are different symbols
+        return super()._hashable_content() + (id(self.regref),)
 
     def _sympystr(self, printer):
         """Blackbird notation.
